@@ -13,6 +13,7 @@ broadcast use {vstd::std_specs::hash::group_hash_axioms, axh::axiom_uuid_key_mod
 //@include regions/status_impl.rs
 //@include regions/taskdata_impl.rs
 //@include regions/task_impl.rs
+//@include regions/workingset_type.rs
 // ---- functions these properties depend on that are NOT verified (outside the verifier's reach): hashed; a change -> UNDECIDED
 //@watch C19 :: src/task/task.rs :: impl Task :: fn add_tag
 //@watch C19 :: src/task/task.rs :: impl Task :: fn remove_tag
@@ -40,10 +41,6 @@ broadcast use {vstd::std_specs::hash::group_hash_axioms, axh::axiom_uuid_key_mod
 //@watch C18 :: src/task/task.rs :: impl Task :: fn get_legacy_uda
 //@watch C18 :: src/task/task.rs :: impl Task :: fn get_user_defined_attribute
 //@watch C18 :: src/task/task.rs :: impl Task :: fn get_value
-//@watch C18 :: src/workingset.rs :: impl WorkingSet :: fn new
-//@watch C18 :: src/workingset.rs :: impl WorkingSet :: fn len
-//@watch C18 :: src/workingset.rs :: impl WorkingSet :: fn is_empty
-//@watch C18 :: src/workingset.rs :: impl WorkingSet :: fn by_uuid
 //@watch C18 :: src/workingset.rs :: impl WorkingSet :: fn iter
 //@watch C18 C19 :: src/task/tag.rs :: impl FromStr for Tag
 //@watch C18 C19 :: src/task/tag.rs :: impl TryFrom<&str> for Tag
